@@ -40,7 +40,7 @@ def _run_replay(ctx, args):
 
 def run(ctx):
     vlib.cargo_build(ctx)
-    r = vlib.tlc(ctx, "FsTree.tla", "FsTree.cfg", "trees", workers=4, env=XSS, timeout=900)
+    r = vlib.tlc(ctx, "FsTree.tla", "FsTree.cfg" if ctx.tier == "quick" else "FsTree_t.cfg", "trees", workers=4, env=XSS, timeout=3000)
     vlib.tlc_must_pass(ctx, r, "FsTree model")
     # negative control / vacuity guard: the algorithm that follows a symlinked root must violate
     # OutsideUntouched in the same model
